@@ -14,7 +14,8 @@ import traceback
 
 VERIF = os.path.dirname(os.path.dirname(os.path.abspath(__file__)))
 REPLAYS = os.path.join(VERIF, "replays")
-EVID = os.path.join(VERIF, "evidence")
+# VERIF_ONLY=<regex>: development aid, explores only the matching skeletons and keeps the partial evidence out of /verif
+EVID = os.path.join(VERIF, "evidence") if not os.environ.get("VERIF_ONLY") else "/tmp/verif-partial-evidence"
 KNOWN = os.path.join(VERIF, "known_findings.json")
 EXIT_HARNESS = 2
 
@@ -344,6 +345,9 @@ def run_check(hname, tier, jobs=None, budget_s=None):
     seed = int(os.environ.get("VERIF_SEED", "0"))
     jobs = jobs or int(os.environ.get("VERIF_JOBS", "16"))
     sks = h.skeletons(tier)
+    if os.environ.get("VERIF_ONLY"):
+        import re
+        sks = [sk for sk in sks if re.search(os.environ["VERIF_ONLY"], sk["id"])]
     budget_s = budget_s or getattr(h, "BUDGET_S", {"quick": 600, "thorough": 3600})[tier]
     deadline = t0 + budget_s
     qtimeout = 20000 if tier == "quick" else 120000
